@@ -776,6 +776,26 @@ func collectReadsH(n *sx, bound []string, ground *[]readRef, pattern func(v stri
 			pattern(in[0], readRef{arr, idx})
 		}
 	}
+	if heapClass != nil && n.head() == "select" && len(n.list) == 3 && n.list[1].list == nil && n.list[1].atom != "" {
+		// one-level array (a Go array value or a per-field heap): A[idx]
+		arr := heapClass(n.list[1], nil)
+		idx := n.list[2]
+		is := idx.String()
+		var in []string
+		for _, b := range bound {
+			if containsToken(is, b) {
+				in = append(in, b)
+			}
+		}
+		switch {
+		case len(in) == 0:
+			if ground != nil {
+				*ground = append(*ground, readRef{arr, idx})
+			}
+		case len(in) == 1 && pattern != nil:
+			pattern(in[0], readRef{arr, idx})
+		}
+	}
 	for _, c := range n.list {
 		collectReadsH(c, bound, ground, pattern, heapClass)
 	}
@@ -789,7 +809,7 @@ func triggerReads(n *sx, v string, add func(string, readRef), hc func(heap, arr 
 		return
 	}
 	isRead := func(m *sx) bool {
-		return m.head() == "select" && len(m.list) == 3 && m.list[1].head() == "select"
+		return m.head() == "select" && len(m.list) == 3 && (m.list[1].head() == "select" || m.list[1].list == nil)
 	}
 	switch n.head() {
 	case "=":
@@ -880,7 +900,29 @@ func arrayClasses(formulas []*sx) func(heap, arr *sx) string {
 		}
 		return heap.String() + "#" + arr
 	}
-	return func(heap, arr *sx) string { return resolve(heap, arr.String(), 0) }
+	var flat func(a *sx, depth int) string
+	flat = func(a *sx, depth int) string {
+		if depth > 200 {
+			return "flat:" + a.String()
+		}
+		if a.list == nil {
+			d, ok := def[a.atom]
+			if !ok {
+				return "flat:" + a.atom
+			}
+			return flat(d, depth+1)
+		}
+		if a.head() == "store" && len(a.list) == 4 {
+			return flat(a.list[1], depth+1)
+		}
+		return "flat:" + a.String()
+	}
+	return func(heap, arr *sx) string {
+		if arr == nil {
+			return flat(heap, 0)
+		}
+		return resolve(heap, arr.String(), 0)
+	}
 }
 
 type qInfo struct {
